@@ -874,6 +874,18 @@ func EmitSMT(hyps []*Term, goal *Term, wantModel bool) string {
 	if len(lits) > 1 {
 		b.WriteString("(assert (distinct " + strings.Join(lits, " ") + "))\n")
 	}
+	// the length of a string literal (when the query talks about string lengths at all)
+	if _, usesLen := ss.funcs["go.str.len"]; usesLen {
+		lenOf := map[string]int{}
+		for lit, t := range strLitRegistry {
+			lenOf[t.Name] = len(lit)
+		}
+		for _, n := range lits {
+			if l, ok := lenOf[n]; ok {
+				b.WriteString(fmt.Sprintf("(assert (= (go.str.len %s) %d))\n", n, l))
+			}
+		}
+	}
 	var defs []*FuncDecl
 	for _, n := range fnames {
 		if ss.funcs[n].Body != nil {
